@@ -118,3 +118,131 @@ Definition exp_neg_bounds (x : Q) : Q * Q :=
     let dn := horner y 1 29 in
     let '(lo, hi) := square_k k (q_floor_fp dn) (q_ceil_fp up) in
     (Qred ((Z.max lo 0) # 1) / (fp_scale # 1), Qred ((hi # 1) / (fp_scale # 1))).
+
+(* ------------------------------------------------------------------ *)
+(* The worm move (do_worm_flip, allow_doubles = true as called by do_time_step), transcribed.
+   The neighbour lists are the ones the constructor builds: pushed in edge order, then
+   stably sorted by neighbour index. *)
+Fixpoint insert_adj (x : nat * Q) (l : list (nat * Q)) : list (nat * Q) :=
+  match l with
+  | [] => [x]
+  | y :: r => if Nat.ltb (fst x) (fst y) then x :: l else y :: insert_adj x r
+  end.
+(* stable: equal keys keep their order (an element is inserted after the equal ones before it) *)
+Definition adj_sorted (g : cgraph) (v : nat) : list (nat * Q) :=
+  fold_left (fun acc x => insert_adj x acc) (adj g v) [].
+
+Definition delta_e_sorted (g : cgraph) (s : state) (v : nat) (omit : option nat) : Q :=
+  fold_right (fun '(o, j) a =>
+                if (match omit with Some w => Nat.eqb o w | None => false end) then a
+                else -2 * j * (spin s v * spin s o) + a)
+             0 (adj_sorted g v).
+
+Inductive wmove := WS (v : nat) | WD (a b : nat).
+
+Definition worm_de (g : cgraph) (s : state) (m : wmove) : Q :=
+  match m with
+  | WS v => delta_e_sorted g s v None
+  | WD a b => delta_e_sorted g s a (Some b) + delta_e_sorted g s b (Some a)
+  end.
+
+Definition wm_last (m : wmove) : nat := match m with WS v => v | WD _ v => v end.
+Definition wm_apply (s : state) (m : wmove) : state :=
+  match m with WS v => flip s v | WD a b => flip (flip s a) b end.
+Definition wm_vars (m : wmove) : list nat := match m with WS v => [v] | WD a b => [a; b] end.
+
+Definition qzero (q : Q) : bool := Qeq_bool q 0.
+
+(* candidates collected while looking around [sel_var]: (move, de, resolves) in push order *)
+Definition worm_candidates (g : cgraph) (s : state) (sel_var last_index : nat) (starting_e : Q)
+  : list (wmove * Q * bool) :=
+  flat_map
+    (fun '(ov, _) =>
+       if Nat.eqb ov last_index then []
+       else
+         let de := worm_de g s (WS ov) in
+         let single :=
+           if qzero de then [(WS ov, de, false)]
+           else if qzero (de + starting_e) then [(WS ov, de, true)] else [] in
+         let s' := flip s ov in
+         let doubles :=
+           flat_map
+             (fun '(oov, _) =>
+                if Nat.eqb oov ov || Nat.eqb oov sel_var then []
+                else
+                  let de2 := worm_de g s' (WS oov) + de in
+                  if qzero de2 then [(WD ov oov, de2, false)]
+                  else if qzero (de2 + starting_e) then [(WD ov oov, de2, true)] else [])
+             (adj_sorted g ov) in
+         single ++ doubles)
+    (adj_sorted g sel_var).
+
+(* the walk: returns (path, state, failed) *)
+Fixpoint worm_walk (fuel : nat) (g : cgraph) (starting_e : Q) (path : list wmove) (sel_move : wmove)
+         (last_index : nat) (s : state) : prog (list wmove * state * bool) :=
+  match fuel with
+  | O => Ret (path, s, true)
+  | S f =>
+      let sel_var := wm_last sel_move in
+      let cands := worm_candidates g s sel_var last_index starting_e in
+      let any_resolve := existsb (fun '(_, _, r) => r) cands in
+      let stack := if any_resolve then filter (fun '(_, de, _) => qzero (de + starting_e)) cands else cands in
+      let continue_with := fun (ov : wmove) (de : Q) =>
+        let s' := wm_apply s ov in
+        let path' := path ++ [ov] in
+        let last' := match ov, sel_move with
+                     | WS _, WS v => v
+                     | WS _, WD _ v => v
+                     | WD v _, _ => v
+                     end in
+        if qzero (de + starting_e) then Ret (path', s', false)
+        else if Nat.ltb (length s) (length path') then Ret (path', s', true)
+        else worm_walk f g starting_e path' ov last' s' in
+      match stack with
+      | [] =>
+          let back := match sel_move with WS _ => sel_move | WD a b => WD b a end in
+          continue_with back (worm_de g s back)
+      | _ =>
+          Unif (N.of_nat (length stack)) (fun cN =>
+            match nth_error stack (N.to_nat cN) with
+            | Some (ov, de, _) => continue_with ov de
+            | None => Ret (path, s, true)
+            end)
+      end
+  end.
+
+Fixpoint insert_nat (x : nat) (l : list nat) : list nat :=
+  match l with
+  | [] => [x]
+  | y :: r => if Nat.leb x y then x :: l else y :: insert_nat x r
+  end.
+Fixpoint drop_pairs (l : list nat) : list nat :=
+  match l with
+  | a :: r => match r with
+              | b :: r' => if Nat.eqb a b then drop_pairs r' else a :: drop_pairs r
+              | [] => [a]
+              end
+  | [] => []
+  end.
+
+Definition worm_move (acc : Q -> Q * Q) (g : cgraph) (beta : Q) (s : state) : prog state :=
+  Unif (N.of_nat (length s)) (fun iN =>
+    let start := N.to_nat iN in
+    let starting_e := worm_de g s (WS start) in
+    let s1 := flip s start in
+    bind (worm_walk (S (length s)) g starting_e [WS start] (WS start) start s1) (fun '(path, s2, failed) =>
+      let visited := drop_pairs (fold_right insert_nat [] (flat_map wm_vars path)) in
+      let undo := fold_left flip visited s2 in
+      if failed then Ret undo
+      else
+        (* the bias part of the energy change, evaluated on the spins AFTER flipping them *)
+        let total_he := fold_right (fun v a => 2 * nth v (c_biases g) 0 * spin s2 v + a) 0 visited in
+        should_flip acc beta total_he (fun ok => Ret (if ok then s2 else undo)))).
+
+(* do_time_step with all three move sets offered (only_basic_moves = false) *)
+Definition time_step_full (acc : Q -> Q * Q) (g : cgraph) (importance : bool) (beta : Q)
+           (nspin nedge nworm : nat) (s : state) : prog state :=
+  Unif8 3 (fun c =>
+    if N.eqb c 0 then repeat_move nspin (spin_move acc g beta) s
+    else if N.eqb c 1 then repeat_move nedge (edge_move acc g importance beta) s
+    else repeat_move nworm (worm_move acc g beta) s).
